@@ -194,9 +194,10 @@ def build_crates(res, wsdir, modules, codedir, ncrates=8, macro_items=None):
         if os.path.exists(cand):
             shutil.copyfile(cand, os.path.join(wsdir, "Cargo.lock"))
             break
-    guard_target(GEN_TARGET, wsdir, REPO_PACKAGES)
-    cmd = ["cargo", "check", "--offline", "--workspace", "--keep-going", "--message-format=json", "--target-dir", GEN_TARGET, "-j", "12"]
-    p = subprocess.run(cmd, cwd=wsdir, env=cargo_env(), stdout=subprocess.PIPE, stderr=subprocess.PIPE, text=True)
+    with build_lock():
+        guard_target(GEN_TARGET, wsdir, REPO_PACKAGES)
+        cmd = ["cargo", "check", "--offline", "--workspace", "--keep-going", "--message-format=json", "--target-dir", GEN_TARGET, "-j", "12"]
+        p = subprocess.run(cmd, cwd=wsdir, env=cargo_env(), stdout=subprocess.PIPE, stderr=subprocess.PIPE, text=True)
     res.cmds.append(" ".join(cmd))
     errors = {}
     saw_any = False
@@ -731,9 +732,15 @@ def check_C08(tier):
         if os.path.exists(cand):
             shutil.copyfile(cand, os.path.join(wsdir, "Cargo.lock"))
             break
-    guard_target(GEN_TARGET, wsdir, REPO_PACKAGES)
-    cmd = ["cargo", "build", "--offline", "--workspace", "--target-dir", GEN_TARGET, "-j", "14"]
-    p = subprocess.run(cmd, cwd=wsdir, env=cargo_env(), stdout=subprocess.PIPE, stderr=subprocess.PIPE, text=True)
+    bindir = os.path.join(res.wd, "bin")
+    os.makedirs(bindir, exist_ok=True)
+    with build_lock():
+        guard_target(GEN_TARGET, wsdir, REPO_PACKAGES)
+        cmd = ["cargo", "build", "--offline", "--workspace", "--target-dir", GEN_TARGET, "-j", "14"]
+        p = subprocess.run(cmd, cwd=wsdir, env=cargo_env(), stdout=subprocess.PIPE, stderr=subprocess.PIPE, text=True)
+        if p.returncode == 0:
+            for cn in members:   # private copies: the shared target directory may be rebuilt by another run at any time
+                shutil.copy2(os.path.join(GEN_TARGET, "debug", cn), os.path.join(bindir, cn))
     res.cmds.append(" ".join(cmd))
     if p.returncode != 0:
         errs = [l for l in p.stderr.splitlines() if l.startswith("error")]
@@ -744,7 +751,7 @@ def check_C08(tier):
     json.dump(allcases, open(casefile, "w"))
     nexec = 0
     for cn in members:
-        pr = subprocess.run([os.path.join(GEN_TARGET, "debug", cn), casefile], stdout=subprocess.PIPE, stderr=subprocess.PIPE, text=True, timeout=900)
+        pr = subprocess.run([os.path.join(bindir, cn), casefile], stdout=subprocess.PIPE, stderr=subprocess.PIPE, text=True, timeout=900)
         if pr.returncode != 0:
             res.add_failures([{"fail": True, "case": cn, "variant": "driver", "sig": "driver died", "detail": "driver %s exited %s: %s" % (cn, pr.returncode, pr.stderr[-800:])}], "run")
             continue
